@@ -7,6 +7,9 @@
 //	plan     mysql.DefaultPlan / postgres.DefaultPlan end to end: identifier chains of every
 //	         Cmd and reverse statement vs. the reference skeleton + the property oracle
 //	lexq     the oracle's dialect lexer and the spellings of a qualified name vs. Qual/Lexq.v
+//	insp     round 5: change sets on tables AS INSPECTED (inspector-only attributes, serial <-> integer
+//	         <-> identity of inspected columns): oracle + tie to the extended skeleton
+//	stmtlex  round 5: the oracle's statement tokenizer vs Qual/StmtLex.v on every generated statement
 //	replay   migrate.Planner (PlanSchema / Plan / WritePlan) over a MemDir and an in-process
 //	         dev driver: plans made from a replayed history, property oracle
 package main
@@ -42,6 +45,10 @@ func main() {
 		runPlan(w, *tier, false)
 	case "skel":
 		runPlan(w, *tier, true)
+	case "stmtlex":
+		runStmtLex(w, *tier)
+	case "insp":
+		runInsp(w, *tier)
 	case "replay":
 		runReplay(w, *tier)
 	case "lexq":
